@@ -11,9 +11,9 @@ RULE = ("random histories (quick: 1200 of length <= 12; thorough: 12000 of lengt
         "is checked for well-formedness and against validate(). non-trivial = the step returned a tier with entries or raised")
 TRUSTED = ["oracle: well-formedness re-checked directly on entries/minTimestamp/maxTimestamp; exception class checked "
            "against praatio.utilities.errors (harness/props/C05.py:oracle)"]
-ASSUMPTIONS = ["arguments are type-correct (interval ops get interval tiers, durations > 0, finite times, a span requested from "
-               "a constructor has minTimestamp <= maxTimestamp); eraseRegion is exercised with regions inside, sticking "
-               "out of and outside the span (a returned tier with minTimestamp > maxTimestamp is ill-formed: A28)",
+ASSUMPTIONS = ["arguments are type-correct (interval ops get interval tiers, durations > 0, finite times); eraseRegion is exercised "
+               "with regions inside, sticking out of and outside the span, the constructors and new() also with a requested "
+               "span whose bounds are in the wrong order (a returned tier with minTimestamp > maxTimestamp is ill-formed: A28, A29)",
                "deleteEntry of an absent entry raises a built-in ValueError: recorded as a known finding, see known_findings.json"]
 
 case_json = lambda c: c
@@ -53,11 +53,11 @@ def oracle(c, r):
     if not isinstance(res, dict):
         return None
     probs = T.wf_problems(res)
-    if op in ("mkitier", "mkptier") and c.get("lo") is not None and c.get("hi") is not None and c["lo"] > c["hi"]:
-        # a REQUESTED span with minTimestamp > maxTimestamp is not a type-correct argument (hypothesis `hspan` of
-        # C05.construct_wf); an entry-less IntervalTier keeps it as given — reported, not judged here
-        probs = [p for p in probs if not p.startswith("span reversed")]
+    # no exception for a REQUESTED span with minTimestamp > maxTimestamp any more (finding A29, fixed in /repo 9432f3b:
+    # C05.construct_wf has no hypothesis): whatever a constructor or new() returns must be well-formed
     if probs:
+        if probs[0].startswith("span reversed"):
+            sig = dict(sig, cause="span-reversed")
         return Failure(dict(sig, clause="well-formed"), f"{op} returned an ill-formed tier: {probs[0]}")
     # validate() agrees
     t = T.call(lambda: T.build(res).validate("silence"))
@@ -122,7 +122,13 @@ def gen_step(rnd, pool, domain):
     if op == "mk":
         lo = rnd.choice([None, 0.0, a])
         hi = rnd.choice([None, 10.0, b])
-        return {"op": "mk" + p + "tier", "name": "N", "es": raw_entries(rnd, domain, k), "lo": lo, "hi": hi}
+        es = raw_entries(rnd, domain, k)
+        if rnd.random() < 0.15:
+            # bounds in the wrong order, mostly without entries (finding A29: the interval constructor kept them reversed)
+            lo, hi = max(a, b) + d, min(a, b)
+            if rnd.random() < 0.7:
+                es = []
+        return {"op": "mk" + p + "tier", "name": "N", "es": es, "lo": lo, "hi": hi}
     if op == "crop":
         return {"op": p + "crop", "tier": t, "a": a, "b": b, "mode": rnd.choice(["strict", "lax", "truncated"]), "rebase": rnd.random() < 0.5}
     if op == "erase":
@@ -160,6 +166,11 @@ def gen_step(rnd, pool, domain):
         return {"op": p + "dejitter", "tier": t, "ref": rnd.choice(pool), "maxdiff": md}
     if op == "morph":
         return {"op": "imorph", "tier": t, "other": u, "filter": rnd.choice([None, ["a"], ["a", "b"]])}
+    if k == "I" and rnd.random() < 0.5:
+        # new(entries=[], minTimestamp=…, maxTimestamp=…): an entry-less copy, now and then with a bound beyond the other
+        lo = rnd.choice([None, a, t["hi"] + d])
+        hi = rnd.choice([None, b, t["lo"] - d]) if lo is None or rnd.random() < 0.5 else None
+        return {"op": "inewe", "tier": t, "lo": lo, "hi": hi}
     return {"op": p + "new", "tier": t}
 
 
@@ -198,6 +209,14 @@ def corpus():
     yield {"op": "idelete", "tier": it, "entry": [1.0, 2.0, "nope"], "grid": True}                                    # known finding
     yield {"op": "mkitier", "name": "N", "es": [[1.0, 3.0, "a"], [2.0, 4.0, "b"]], "lo": None, "hi": None, "grid": True}
     yield {"op": "mkitier", "name": "N", "es": [], "lo": None, "hi": None, "grid": True}
+    # A29 (fixed): an entry-less interval tier with bounds in the wrong order kept minTimestamp > maxTimestamp
+    yield {"op": "mkitier", "name": "T", "es": [], "lo": 5.0, "hi": 2.0, "grid": True}
+    yield {"op": "mkitier", "name": "T", "es": [[1.0, 3.0, "a"]], "lo": 5.0, "hi": 2.0, "grid": True}
+    yield {"op": "mkptier", "name": "T", "es": [], "lo": 5.0, "hi": 2.0, "grid": True}
+    yield {"op": "inewe", "tier": {"k": "I", "name": "T", "es": [[1.0, 3.0, "a"]], "lo": 0.0, "hi": 10.0}, "lo": 20.0, "hi": None,
+           "grid": True}
+    yield {"op": "inewe", "tier": {"k": "I", "name": "T", "es": [[1.0, 3.0, "a"]], "lo": 0.0, "hi": 10.0}, "lo": None, "hi": -4.0,
+           "grid": True}
     # A28 (fixed): eraseRegion with doShrink and a region reaching beyond the span returned a tier ending before its start
     e10 = {"k": "I", "name": "e", "es": [], "lo": 0.0, "hi": 10.0}
     for m in ("truncate", "categorical", "error"):
